@@ -103,6 +103,17 @@ func runC08(cx *Ctx, r *Report) {
 	// ------------------------------------------------ callback discipline
 	cx.c08Callback(r)
 	cx.lostUpdateRule(r, []string{"service", "oracle", "random"}, 40)
+	{
+		walks := map[string]*c13Walk{}
+		cx.singleEntryRule(r, func(e Entry) *c13Walk {
+			k := entryKey(&e)
+			if walks[k] == nil {
+				ee := e
+				walks[k] = cx.c13WalkEntry(&ee, r)
+			}
+			return walks[k]
+		})
+	}
 	r.requireCount("context-authority", 4)
 }
 
